@@ -825,6 +825,89 @@ fn section_versions(ctx: &mut Ctx, fx: &Fx) {
         }
     }
 
+    // ---- issuer hints do not replace the version rule: the same table with an issuer fingerprint
+    //      (the verifying key's own one) in the unhashed area, a hashed one next to a matching key id,
+    //      or a foreign one in the unhashed area - the hints name a key, the rule compares versions
+    //      (oracles only; the misaligned rows are refused whatever the packet carries)
+    for sv in [4u8, 6] {
+        for kv in KEY_VERSIONS {
+            macro_rules! with_keys {
+                ($sk:ident, $pk:ident, $body:block) => {
+                    if sv == 6 {
+                        let $sk = k6;
+                        let $pk = p6;
+                        $body
+                    } else {
+                        let $sk = k4;
+                        let $pk = p4;
+                        $body
+                    }
+                };
+            }
+            with_keys!(sk, pk, {
+                let signer = wrap(sk, sv);
+                let vk = wrap(pk, kv);
+                let own_fp = Subpacket::regular(SubpacketData::IssuerFingerprint(pk.fingerprint())).expect("sp");
+                let other = if sv == 6 { p4.fingerprint() } else { p6.fingerprint() };
+                let foreign_fp = Subpacket::regular(SubpacketData::IssuerFingerprint(other)).expect("sp");
+                let own_kid = Subpacket::regular(SubpacketData::IssuerKeyId(pk.legacy_key_id())).expect("sp");
+                let layouts: Vec<(&str, Vec<Subpacket>, Vec<Subpacket>)> = vec![
+                    ("unhashed_fp", vec![ctime()], vec![own_fp.clone()]),
+                    ("hashed_fp", vec![ctime(), own_fp.clone()], vec![]),
+                    ("hashed_fp_unhashed_kid", vec![ctime(), own_fp.clone()], vec![own_kid.clone()]),
+                    ("unhashed_fp_and_kid", vec![ctime()], vec![own_kid.clone(), own_fp.clone()]),
+                    ("unhashed_foreign_fp_and_kid", vec![ctime()], vec![foreign_fp.clone(), own_kid.clone()]),
+                ];
+                for (lname, hashed, unhashed) in &layouts {
+                    let mk = |typ: SignatureType| {
+                        let mut cfg = cfg_for(sv, typ, sk.algorithm(), 0x65, pk.legacy_key_id());
+                        cfg.hashed_subpackets = hashed.clone();
+                        cfg.unhashed_subpackets = unhashed.clone();
+                        cfg
+                    };
+                    let tag = format!("hints={lname} kv={kv} sv={sv}");
+                    let mut results: Vec<(&str, String, Vec<u8>)> = Vec::new();
+                    let sig = manual_sign(mk(SignatureType::Binary), DOC, sk);
+                    results.push(("data", okerr(guarded(|| sig.verify(&vk, DOC))), pkt_bytes(&sig)));
+                    let det = pgp::composed::DetachedSignature::new(sig.clone());
+                    results.push(("detached", okerr(guarded(|| det.verify(&vk, DOC))), pkt_bytes(&sig)));
+                    if let Ok(sig) = mk(SignatureType::Key).sign_key(&signer, &Password::empty(), signee) {
+                        results.push(("key", okerr(guarded(|| sig.verify_key_third_party(signee, &vk))), pkt_bytes(&sig)));
+                    }
+                    if let Ok(sig) = mk(SignatureType::CertPositive).sign_certification_third_party(&signer, &Password::empty(), signee, Tag::UserId, &uid) {
+                        results.push(("cert", okerr(guarded(|| sig.verify_third_party_certification(signee, &vk, Tag::UserId, &uid))), pkt_bytes(&sig)));
+                    }
+                    if [4u8, 6].contains(&kv) {
+                        if let Ok(sig) = mk(SignatureType::SubkeyBinding).sign_subkey_binding(&signer, &vk, &Password::empty(), sub4) {
+                            results.push(("subkey", okerr(guarded(|| sig.verify_subkey_binding(&vk, sub4))), pkt_bytes(&sig)));
+                        }
+                        if let Ok(sig) = mk(SignatureType::KeyBinding).sign_primary_key_binding(&signer, &vk, &Password::empty(), p4) {
+                            results.push(("pkb", okerr(guarded(|| sig.verify_primary_key_binding(&vk, p4))), pkt_bytes(&sig)));
+                        }
+                    }
+                    for (path, ans, bytes) in &results {
+                        ctx.stat(&format!("verify_hints:{path}:{ans}"));
+                        let site = match *path {
+                            "data" => "Signature::verify",
+                            "detached" => "DetachedSignature::verify",
+                            "key" => "Signature::verify_key_third_party",
+                            "cert" => "Signature::verify_third_party_certification",
+                            "subkey" => "Signature::verify_subkey_binding",
+                            _ => "Signature::verify_primary_key_binding",
+                        };
+                        let input = format!("{tag} path={path} packets={}", hx(bytes));
+                        if (kv == 6) != (sv == 6) {
+                            ctx.oracle("issuer_hints_do_not_lift_the_version_rule", site, &input, ans != "ok", ans);
+                        }
+                        if (kv, sv) == (4, 4) || (kv, sv) == (6, 6) {
+                            ctx.oracle("aligned_signature_with_hints_verifies", site, &input, ans == "ok", ans);
+                        }
+                    }
+                }
+            });
+        }
+    }
+
     // ---- signing entry points: key reporting kv x config version
     for kv in KEY_VERSIONS {
         let signer = wrap(k4, kv);
